@@ -23,7 +23,7 @@ import (
 )
 
 type frtCloseSc struct {
-	Fault    string `json:"fault"` // "" | subscribe | provopt | dhtopt
+	Fault    string `json:"fault"`    // "" | subscribe | provopt | dhtopt
 	CrawlMs  int    `json:"crawl_ms"` // how long a crawl takes (virtual)
 	CloseMs  int    `json:"close_ms"`
 	NClose   int    `json:"n_close"`
